@@ -383,4 +383,16 @@ def check_r05_10(repo: Repo, chk: Check) -> None:
            'results are de-duplicated' if dedup else
            'the walk treats the subclass graph as a tree: in a diamond (`Badge(Rounded, Filled)`, both deriving from `Shape`) the page of Shape says '
            '"overridden in shapes.Badge, shapes.Badge"', os_.loc)
-    chk.require('R05.10', 2)
+    # (c) `class Impl(Generic[T], Named[T])`: typing drops `Generic[...]` from the bases when a later base is a subscripted generic (PEP 560,
+    # `_GenericAlias.__mro_entries__`): Generic then comes in through that base only.  Fed to the C3 merge as a first base it makes a hierarchy that
+    # CPython accepts look inconsistent ("Cannot compute linearization") and the class falls back to a wrong linearisation
+    lb = repo.funcs.get(f'{M}.compute_mro.localbases')
+    if lb is None:
+        raise AnalysisError('R05.10: compute_mro.localbases not found')
+    knows = any(isinstance(x, ast.Constant) and isinstance(x.value, str) and x.value.endswith('Generic') for x in lb.walk()) and \
+        any(isinstance(x, ast.Attribute) and x.attr == 'Subscript' for x in lb.walk())
+    chk.ob('R05.10', f'{M}.compute_mro.localbases :: Generic[...] followed by a subscripted base is left out, as typing does', knows,
+           'handled' if knows else
+           '`typing.Generic` is merged like any other base: `class Impl(Generic[T], Named[T], Box[T])`, which CPython accepts, is reported as inconsistent and gets '
+           '[Impl, Named, Box, Box]', lb.loc)
+    chk.require('R05.10', 3)
